@@ -443,3 +443,5 @@ def run(tier, seed):
 
 
 RULE += (' FullFactorGenerator on seven parameter sets that declare a precision (narrow ranges, bounds off the grid), with and without centre.')
+
+RULE += (' Designs run through SweepAlgorithm with plain, zero and non-finite responses: the recorded runs are the design.')
